@@ -140,6 +140,11 @@ claimed['C09']['text'] += " The walk templates (incl. zero-gradient branches) ar
 claimed['C20']['text'] += " S16 also reports a lock taken while a lock of the same kind may be held (no global order: swapped operands deadlock)."
 for k in ('C03', 'C04', 'C05'):
     claimed[k]['text'] += " Premise: the store observer (C10.mutation) over the labelled instances of every other public method - operands stay intact between operations."
+# round-7 additions
+for k in ('C03', 'C04', 'C05', 'C06'):
+    claimed[k]['text'] += " S4 write provenance over the data layer counts here as in C10 (an append into an operand's spare capacity changes what an earlier result shows). When normal forms differ and no ordinary point separates them, uniform points from the path condition's constants and non-finite points (0, finite, +-Inf; float64 classes finite/Inf/NaN) are tried; a constant 0 where a one-term definition is a normal non-zero float64 is a flush-to-zero difference. Size constants include strides, power-of-two masks/shifts and min/max clamps."
+claimed['C07']['text'] += " MatMul and Dot (whose implicit batch expansion and backward rules are contractions again) are re-checked in labelled-element mode, incl. non-finite points."
+claimed['C18']['text'] += " The per-element draw check also runs at element counts just beyond every size constant harvested from the implementation (look-ahead buffers, blocked sampling)."
 reasons_na = {
  'C11': "compositional over C01, C02, C07, C08, C10, C16, C17 (each claimed separately); the end-to-end trajectory clause is not yet decided by its own check - build in progress",
  'C13': "compositional over C12, C01, C02 (each claimed separately); an end-to-end check of the loss gradients through the real BackPropagate is being built",
